@@ -7,7 +7,7 @@
    parked where it should not be; that worker functions return is the property's own
    hypothesis. *)
 From Coq Require Import List Arith.
-From VQ Require Import SliceWake SliceWakeProofs SliceBatch SliceBatchProofs.
+From VQ Require Import SliceWake SliceWakeProofs SliceBatch SliceBatchProofs Lockset LocksetProofs.
 Import ListNotations.
 
 (* No lost wake-up: whenever the event loop is parked while its guard is true, a signal is
@@ -39,6 +39,15 @@ Print Assumptions C03_signal_persists.
 Theorem C03_batch_send_never_blocks : forall s, BReachable s -> bsends s < bn s -> chlen s < bcap s.
 Proof. exact send_never_blocks. Qed.
 Print Assumptions C03_batch_send_never_blocks.
+
+(* No goroutine waits for itself through the worker's reader/writer lock (coq/Lockset.v): the
+   read lock is never taken by a thread that already holds it, so a writer (a barrier caller
+   about to evaluate its condition, Stop / Restart replacing the channels) arriving in between
+   cannot wedge the two against each other. Checked on every replayed LOCK block. *)
+Theorem C03_no_recursive_read_lock :
+  forall s t s', lkstep s (LRLock t) = Some s' -> is_reader s t = false /\ writer s = None.
+Proof. exact no_recursive_read_lock. Qed.
+Print Assumptions C03_no_recursive_read_lock.
 
 (* non-vacuity: a completion makes room while the loop is parked; its notify wakes the loop *)
 Example C03_example :
